@@ -40,7 +40,12 @@ def scenarios(work, tier, purpose, model):
     with open(cfg, "w") as f:
         f.write('SPECIFICATION Spec\nCONSTANTS Tier = "%s"\n Purpose = "%s"\nINVARIANT TypeOK\nCHECK_DEADLOCK FALSE\n'
                 % (tier, purpose))
-    r = vlib.tlc_or_broken("Scenarios.tla", cfg, workers=4, xmx="2g")
+    mined = os.path.join(work, "mined.ndjson")
+    with open(mined, "w") as f:
+        for m in vlib.mined_constants():
+            if 200 <= m < 2 ** 31 - 64:
+                f.write(json.dumps({"n": m}) + "\n")
+    r = vlib.tlc_or_broken("Scenarios.tla", cfg, workers=4, xmx="2g", env={"MINED": mined})
     model.add("Scenarios[%s,%s]" % (tier, purpose), r)
     sc = sorted({"%s %s %s %s %s %s %s %s" % m for m in SCEN.findall(r["out"])})
     if len(sc) < 50:
